@@ -29,6 +29,88 @@ def _ratio(test, syms):
     return None
 
 
+def check_entry(prog, report, q='Mesh.refine_grading'):
+    """R-entry: the driver refines through the public bisection entry
+    points with their default behaviour -- any keyword argument it passes
+    must equal the callee's default, so the conformity closure is not opted
+    out of."""
+    fi = prog.func(M, q)
+    n = 0
+    for node in ast.walk(fi.node):
+        rc = refine_call(node)
+        if rc is None:
+            continue
+        n += 1
+        callee = prog.func(M, 'Mesh.' + node.func.attr)
+        a = callee.node.args
+        defaults = {}
+        pos = a.args[len(a.args) - len(a.defaults):]
+        for p_, d in zip(pos, a.defaults):
+            defaults[p_.arg] = d
+        for p_, d in zip(a.kwonlyargs, a.kw_defaults):
+            if d is not None:
+                defaults[p_.arg] = d
+        bad = []
+        for kw in node.keywords:
+            if kw.arg is None or kw.arg not in defaults or ast.dump(
+                    kw.value) != ast.dump(defaults[kw.arg]):
+                bad.append(text(kw) if kw.arg is None else '%s=%s' %
+                           (kw.arg, text(kw.value)))
+        extra = node.args[2 if node.func.attr == 'refine_axis' else 1:]
+        report.check(
+            not bad and not extra, 'R-entry',
+            '%s call `%s`' % (q.split('.')[-1], text(node)[:50]),
+            fi.where(node),
+            'the bisection entry point is called with its default '
+            'behaviour (conformity closure included); non-default '
+            'arguments: %s' % (bad + [text(e) for e in extra] or 'none'),
+            construct='%s: non-default refine call' % q.split('.')[-1])
+    if n == 0:
+        raise AnalysisError('%s: no refine call found' % fi.where())
+
+
+def _dict_memo(st, nxt):
+    """`v = D.get(key)` followed by `if v is None: v = D[key] = expr`
+    (or the two-statement form) -> (v, text(D), key, expr)."""
+    if not (isinstance(st, ast.Assign) and len(st.targets) == 1 and
+            isinstance(st.targets[0], ast.Name) and isinstance(
+                st.value, ast.Call) and isinstance(
+                    st.value.func, ast.Attribute) and
+            st.value.func.attr == 'get' and len(st.value.args) == 1):
+        return None
+    var = st.targets[0].id
+    store = text(st.value.func.value)
+    key = st.value.args[0]
+    if not (isinstance(nxt, ast.If) and text(nxt.test) in (
+            '%s is None' % var, 'not %s' % var) and not nxt.orelse):
+        raise AnalysisError('line %d: lookup `%s` without a recognisable '
+                            'miss branch' % (st.lineno, text(st)))
+    expr = None
+    stored = False
+    for b in nxt.body:
+        if not isinstance(b, ast.Assign):
+            raise AnalysisError('line %d: unrecognised memo miss branch' %
+                                b.lineno)
+        slot = '%s[<key>]' % store
+        tg = [slot if isinstance(t, ast.Subscript) and text(
+            t.value) == store and ast.dump(t.slice) == ast.dump(key)
+            else text(t) for t in b.targets]
+        if var in tg and expr is None:
+            expr = b.value
+        if slot in tg:
+            stored = True
+            if not (var in tg or text(b.value) == var):
+                raise AnalysisError('line %d: memo stores another value' %
+                                    b.lineno)
+        if not set(tg) <= {var, slot}:
+            raise AnalysisError('line %d: unrecognised memo miss branch' %
+                                b.lineno)
+    if expr is None or not stored:
+        raise AnalysisError('line %d: unrecognised memo miss branch' %
+                            nxt.lineno)
+    return var, store, key, expr
+
+
 def check_window(prog, report):
     fi = prog.func(M, 'Mesh.refine_grading')
     params = fi.params
@@ -59,7 +141,33 @@ def check_window(prog, report):
     # local single assignments of the classification loop are inlined
     from .absint import subst
     local = {}
-    for s_ in cloop.body:
+    body = list(cloop.body)
+    for i, s_ in enumerate(body):
+        memo = _dict_memo(s_, body[i + 1] if i + 1 < len(body) else None)
+        if memo is not None:
+            # v = D.get(key); if v is None: v = D[key] = expr
+            var, store, key, expr = memo
+            expr = subst(expr, local)
+            key_names = {text(m) for m in ast.walk(subst(key, local))
+                         if isinstance(m, (ast.Name, ast.Attribute))}
+            local_store = any(
+                isinstance(a, ast.Assign) and text(a.targets[0]) == store
+                for a in ast.walk(fi.node))
+            dep = {m.id for m in ast.walk(expr) if isinstance(m, ast.Name)
+                   and m.id in params and m.id != 'self'}
+            missing = set() if local_store else {
+                d for d in dep if d not in key_names}
+            report.check(
+                not missing, 'R-memo',
+                'refine_grading memo %s' % store, fi.where(s_),
+                'the memoised value `%s` depends on %s but the store `%s`, '
+                'which outlives the call, is keyed on `%s` only: a later '
+                'call with another value classifies with the stale one' %
+                (text(expr)[:40], sorted(missing) or 'nothing else', store,
+                 text(key)),
+                construct='refine_grading: memo %s key incomplete' % store)
+            local[var] = expr
+            continue
         if isinstance(s_, ast.Assign) and len(s_.targets) == 1 and \
                 isinstance(s_.targets[0], ast.Name):
             local[s_.targets[0].id] = subst(s_.value, local)
